@@ -338,6 +338,44 @@ func TestC01(t *testing.T) {
 				return
 			}
 			P := bn.KwPrint
+			// long flat chains (no nesting in the text): else-if ladders, statement lists, argument / element /
+			// property lists, suffix chains — around every small power of two
+			for _, n := range []int{2, 3, 4, 5, 7, 8, 9, 10, 15, 16, 17, 31, 32, 33, 63, 64, 65, 127, 128, 129, 255, 256, 257, 1000} {
+				var ladder strings.Builder
+				fmt.Fprintf(&ladder, "%s rung(i) {\n", bn.KwFun)
+				for k := 0; k < n; k++ {
+					kw := bn.KwElse + " " + bn.KwIf
+					if k == 0 {
+						kw = bn.KwIf
+					}
+					fmt.Fprintf(&ladder, "  %s (i == %d) { %s \"r%d\"; }\n", kw, k, bn.KwReturn, k)
+				}
+				fmt.Fprintf(&ladder, "  %s { %s \"else\"; }\n}\n%s [rung(0), rung(%d), rung(%d), rung(%d), rung(%d)];\n", bn.KwElse, bn.KwReturn, P, n/2, n-1, n, n+5)
+				var elems, props, args, params []string
+				for k := 0; k < n; k++ {
+					elems = append(elems, fmt.Sprint(k))
+					props = append(props, fmt.Sprintf("k%d: %d", k, k))
+				}
+				for k := 0; k < n && k < 255; k++ {
+					args = append(args, fmt.Sprint(k))
+					params = append(params, fmt.Sprintf("p%d", k))
+				}
+				flat := []string{
+					ladder.String(),
+					P + " " + bn.BLen + "([" + strings.Join(elems, ", ") + "]);\n" + P + " [" + strings.Join(elems, ", ") + "][" + fmt.Sprint(n-1) + "];\n",
+					"x = {" + strings.Join(props, ", ") + "};\n" + P + " x.k" + fmt.Sprint(n-1) + " + x.k0;\n",
+					bn.KwFun + " lastp(" + strings.Join(params, ", ") + ") { " + bn.KwReturn + " p" + fmt.Sprint(len(params)-1) + " + p0; }\n" + P + " lastp(" + strings.Join(args, ", ") + ");\n",
+					P + " " + strings.Join(elems, " + ") + ";\n" + P + " " + strings.Join(elems, " - ") + ";\n" + P + " 1" + strings.Repeat(" "+bn.KwOr+" 0", n) + ";\n" + P + " 0" + strings.Repeat(" == 0", n) + ";\n",
+					bn.KwVar + " " + strings.Join(params, ", ") + ";\n" + P + " p0;\n",
+				}
+				for _, tx := range flat {
+					c.c01Text(s, "deep-nesting", tx, true)
+					mc := c.runModelCase(s, tx, "", model.Options{MaxSteps: 400000, MaxDepth: 5000}, judgeOpts{})
+					if mc.Sig != "" && mc.Sig != "abnormal" {
+						s.Violation(mc.replay("tree"))
+					}
+				}
+			}
 			for _, d := range []int{10, 100, 254, 255, 256, 257, 300, 1000, 3000} {
 				texts := []string{
 					P + " 1 + " + strings.Repeat("(", d) + "2 * 3" + strings.Repeat(")", d) + ";\n" + P + " \"done\";\n",
